@@ -100,7 +100,7 @@ def oracle(chk, inp, cls, schema, classes, ci, data, expect=None):
     return r
 
 
-def mutations(rng, data, known_numbers, wire_of, packable=()):
+def mutations(rng, data, known_numbers, wire_of, packable=(), msg_numbers=()):
     """yield (name, bytes, expectation)"""
     try:
         recs = WS.split(data)
@@ -146,6 +146,17 @@ def mutations(rng, data, known_numbers, wire_of, packable=()):
         pos = rng.choice(bounds)
         cut = rng.randrange(1, len(rec))
         yield ("truncate-inside-unknown", data[:pos] + rec[:cut], "reject")
+    # malformed bytes INSIDE the payload of a known message-typed field (sub-message, wrapper, Timestamp / Duration, map
+    # entry), after its well-formed content, with the outer length prefix covering them: the nested decoder must reject
+    # them exactly as the top level does (a decoder that stops reading the payload early would accept and later drop them)
+    nested = [r for r in recs if r[1] == 2 and r[0] in msg_numbers]
+    for _ in range(4 if nested else 0):
+        r = rng.choice(nested)
+        garbage = rng.choice([b"\x08", b"\x0d\x01\x02", b"\x00\x00", b"\x0e", b"\x12\x05ab", b"\x80"])
+        newp = r[3] + garbage
+        rec = WS.enc_varint(r[0] << 3 | 2) + WS.enc_varint(len(newp)) + newp
+        i = data.find(r[2])
+        yield ("nested-malformed", data[:i] + rec + data[i + len(r[2]):], "reject")
     # a packed payload that does not consist of whole elements (fixed width: length not a multiple of
     # the width; varint: ends inside an element): decoding it into fewer elements would be a mis-decode
     for num, width in packable:
@@ -259,7 +270,8 @@ def run(chk, drv):
                 continue
             packable = [(f.num, 4 if f.ty in ("float", "fixed32", "sfixed32") else 8 if f.ty in ("double", "fixed64", "sfixed64") else 0)
                         for f in b.schema[ci].fields if f.repeated and f.ty not in ("string", "bytes", "message")]
-            for name, mdata, expect in mutations(rng, data, known, wire_of, packable):
+            msg_numbers = {f.num for f in b.schema[ci].fields if f.ty in ("message", "map")}
+            for name, mdata, expect in mutations(rng, data, known, wire_of, packable, msg_numbers):
                 chk.count("mutation_" + name)
                 if name == "mismatch":
                     pre, rec, post = mdata
